@@ -58,6 +58,7 @@ class EngineBase:
         self.cur_qual: List[str] = []
         self.opaque_handlers = {}         # typ -> handler(engine, st, recv, name, args, kwargs)
         self.external_handlers = {}       # dotted external name -> handler(engine, st, args, kwargs)
+        self.const_overrides = {}         # (module, name) -> value replacing a module-level constant
         self.external_values = {}         # dotted external name -> value (e.g. math.pi)
         self.opaque_spec = set()          # spec functions treated as uninterpreted in codec mode
         self.spec_module_names = set()
